@@ -117,3 +117,132 @@ Example C07_parseval_example :
   /\ csr_power (K:=QcF) 4 cs4 sn4 1%Qc 1%Qc None ex_Z ex_p = Qcz 44
   /\ map (csr_spectrum (K:=QcF) 4 cs4 sn4 1%Qc None ex_Z ex_p) (zrange 4) = map Qcz [27; 10; 7; 0].
 Proof. repeat split; vm_compute; reflexivity. Qed.
+
+(** ------------------------------------------------------------------------------------------------
+    Several bunches on ONE field object, tied to the current source through the translator (second wave).
+    [run_gen P h] runs a history [h] of wakePotential / padBunchProfiles / updateCSR calls through the
+    programs GENERATED from the current ElectricField.cpp (Gen/Gen_EField.v) on a fresh object [P] with any
+    number of bunches [length (obks P)], any bucket list and any spacing (zero included).  [alone p b] is
+    what the forward transform of updateCSR sees for bunch b: that bunch by itself at padded offset 0 (the
+    buffer is cleared before each bunch is copied - commit e7a4be0), whatever the other bunches and the
+    history are.  [cutopt cut] = the cutoff factors when cutoff_frequency > 0, none otherwise. *)
+From Inovesa Require Import Model.EField Model.EFieldProg Gen.Gen_EField Proofs.EFieldGenP Proofs.EFieldDFTP Proofs.EFieldTieP.
+
+(** row b of getCSRSpectrum() and entry b of getCSRPower() are those of bunch b alone *)
+Theorem C07_multibunch_spectrum_row :
+  forall (K : Fld) (P : fobj K),
+    2 <= oN P -> hypB (E_of K P) -> (forall c : K, osgn P c = Gt -> c <> f0) ->
+  forall (h : list (op K)) (cut : K) (p : Z -> K) (b : nat) (i : Z),
+    (b < length (obks P))%nat -> 0 <= i < oN P ->
+    csr (run_gen K P (h ++ [CSR cut p])) (Z.of_nat b * oN P + i)
+    = csr_spectrum (oN P) (ocs P) (osn P) (odq2 P) (cutopt K P cut) (oZ P) (alone K P p (Z.of_nat b)) i.
+Proof. exact gen_csr_row. Qed.
+Print Assumptions C07_multibunch_spectrum_row.
+
+Theorem C07_multibunch_power :
+  forall (K : Fld) (P : fobj K),
+    2 <= oN P -> hypB (E_of K P) -> (forall c : K, osgn P c = Gt -> c <> f0) ->
+  forall (h : list (op K)) (cut : K) (p : Z -> K) (b : nat),
+    (b < length (obks P))%nat ->
+    csri (run_gen K P (h ++ [CSR cut p])) (Z.of_nat b)
+    = csr_power (oN P) (ocs P) (osn P) (odf P) (odq2 P) (cutopt K P cut) (oZ P) (alone K P p (Z.of_nat b)).
+Proof. exact gen_csr_power. Qed.
+Print Assumptions C07_multibunch_power.
+
+(** the power of bunch b is delta_f times the sum of ITS OWN spectrum row: nothing is carried over from
+    the bunches before it *)
+Theorem C07_multibunch_power_is_own_row_sum :
+  forall (K : Fld) (P : fobj K),
+    2 <= oN P -> hypB (E_of K P) -> (forall c : K, osgn P c = Gt -> c <> f0) ->
+  forall (h : list (op K)) (cut : K) (p : Z -> K) (b : nat),
+    (b < length (obks P))%nat ->
+    csri (run_gen K P (h ++ [CSR cut p])) (Z.of_nat b)
+    = sumZ 0 (Z.to_nat (oN P)) (fun i => (odf P * csr (run_gen K P (h ++ [CSR cut p])) (Z.of_nat b * oN P + i)%Z)%F).
+Proof. exact gen_csr_power_is_row_sum. Qed.
+Print Assumptions C07_multibunch_power_is_own_row_sum.
+
+(** Parseval per bunch (cutoff not active): the power of bunch b and the wake loss of bunch b alone differ
+    by exactly the zero-frequency term and the top cell *)
+Theorem C07_multibunch_parseval :
+  forall (K : Fld) (P : fobj K),
+    2 <= oN P -> hypB (E_of K P) -> (forall c : K, osgn P c = Gt -> c <> f0) ->
+    twiddle_laws K (ocs P) (osn P) ->
+  forall (h : list (op K)) (cut : K) (p : Z -> K) (b : nat) (stale : Z -> cplx K),
+    (b < length (obks P))%nat -> cut_active (osgn P cut) = false ->
+    fresh_top K (oN P) stale -> odf P <> f0 -> odq2 P <> f0 ->
+    (csri (run_gen K P (h ++ [CSR cut p])) (Z.of_nat b) / (odf P * odq2 P)
+     - wake_loss K (oN P) (ocs P) (osn P) (oZ P) stale (alone K P p (Z.of_nat b)) / two
+     = fst (oZ P 0%Z) * cnorm (formfactor (oN P) (ocs P) (osn P) (alone K P p (Z.of_nat b)) 0%Z) / two
+       + fst (oZ P (oN P / 2)%Z) * cnorm (formfactor (oN P) (ocs P) (osn P) (alone K P p (Z.of_nat b)) (oN P / 2)%Z))%F.
+Proof. exact gen_csr_parseval_per_bunch. Qed.
+Print Assumptions C07_multibunch_parseval.
+
+(** passive impedance: every row and every power entry is non-negative (rationals: cutoff factors as data) *)
+Theorem C07_multibunch_nonneg :
+  forall (P : fobj QcF),
+    2 <= oN P -> hypB (E_of QcF P) -> (forall c : QcF, osgn P c = Gt -> c <> 0%Qc) ->
+    nnQc (odf P) -> nnQc (odq2 P) -> passive QcF nnQc (oN P) (oZ P) ->
+  forall (h : list (op QcF)) (cut : QcF) (p : Z -> QcF) (b : nat), (b < length (obks P))%nat ->
+    cut_nn QcF nnQc (cutopt QcF P cut) ->
+    (forall i, 0 <= i < oN P -> nnQc (csr (run_gen QcF P (h ++ [CSR cut p])) (Z.of_nat b * oN P + i)))
+    /\ nnQc (csri (run_gen QcF P (h ++ [CSR cut p])) (Z.of_nat b)).
+Proof. exact gen_csr_nonneg_Qc. Qed.
+Print Assumptions C07_multibunch_nonneg.
+
+(** ... over the reals with std::exp = exp the generated cutoff factor needs no side condition *)
+Theorem C07_multibunch_nonneg_R :
+  forall (P : fobj RF), oexp P = exp -> osgn P = sgnR ->
+    2 <= oN P -> hypB (E_of RF P) ->
+    nnR (odf P) -> nnR (odq2 P) -> passive RF nnR (oN P) (oZ P) ->
+  forall (h : list (op RF)) (cut : RF) (p : Z -> RF) (b : nat), (b < length (obks P))%nat ->
+    (forall i, 0 <= i < oN P -> nnR (csr (run_gen RF P (h ++ [CSR cut p])) (Z.of_nat b * oN P + i)))
+    /\ nnR (csri (run_gen RF P (h ++ [CSR cut p])) (Z.of_nat b)).
+Proof. exact gen_csr_nonneg_R. Qed.
+Print Assumptions C07_multibunch_nonneg_R.
+
+(** ... and an active cutoff (cutoff_frequency > 0) makes each bunch's power smaller than with the cutoff
+    disabled (cutoff_frequency <= 0), whatever the two histories *)
+Theorem C07_multibunch_cutoff_smaller_R :
+  forall (P : fobj RF), oexp P = exp -> osgn P = sgnR ->
+    2 <= oN P -> hypB (E_of RF P) ->
+    nnR (odf P) -> nnR (odq2 P) -> passive RF nnR (oN P) (oZ P) ->
+  forall (h h' : list (op RF)) (cut cut0 : RF) (p : Z -> RF) (b : nat), (b < length (obks P))%nat ->
+    (0 < cut)%R -> (cut0 <= 0)%R ->
+    (0 <= csri (run_gen RF P (h ++ [CSR cut p])) (Z.of_nat b)
+       <= csri (run_gen RF P (h' ++ [CSR cut0 p])) (Z.of_nat b))%R.
+Proof. exact gen_csr_cutoff_smaller_R. Qed.
+Print Assumptions C07_multibunch_cutoff_smaller_R.
+
+(** the generated guard of the cutoff factor is the model's: applied iff cutoff_frequency > 0;
+    the generated right-hand sides are the model's products *)
+Theorem C07_generated_cutoff_rule : forall c, gen_csr_cut_on c = cut_active c.
+Proof. exact gen_csr_cut_on_is_model. Qed.
+Print Assumptions C07_generated_cutoff_rule.
+
+Theorem C07_generated_kernels :
+  forall (K : Fld) (dq2 df hertz : K) (fax : Z -> K) (expf : K -> K) (cut : K) (i : Z) (rez nf a x : K),
+    gen_k_csr_off K dq2 rez nf = (dq2 * rez * nf)%F /\
+    (cut <> f0 -> gen_k_csr_on K expf dq2 hertz (fax i) cut rez nf = (dq2 * cut_g K hertz fax expf cut i * rez * nf)%F) /\
+    gen_k_acc K a df x = (a + df * x)%F.
+Proof.
+  exact (fun K dq2 df hertz fax expf cut i rez nf a x =>
+           conj (gen_csr_off_spec K dq2 rez nf)
+                (conj (gen_csr_on_spec K dq2 hertz fax expf cut i rez nf) (gen_acc_spec K df a x))).
+Qed.
+Print Assumptions C07_generated_kernels.
+
+(** non-vacuity: three bunches on the exact N = 4 table, spacing 0 (the program's radiation field), after a
+    wake call and a padding call; powers (44, 108, 0): each from its own row, third bunch empty *)
+Example C07_multibunch_example :
+  let P := Fobj QcF 4 cs4 sn4 2 0 [2; 1; 0] ex_Z (Qcz 2) 1%Qc 1%Qc 1%Qc (fun i => Qcz i) (fun x => x)
+                (fun c => (c ?= 0)%Qc) (fun l => l) in
+  let p := getz 0%Qc (map Qcz [1; 2; 3; 0; 0; 0]) in
+  hypB (E_of QcF P) /\ (forall c : QcF, osgn P c = Gt -> c <> 0%Qc) /\
+  map (csri (run_gen QcF P ([Wake p; Pad p] ++ [CSR 0%Qc p]))) (zrange 3) = map Qcz [44; 108; 0] /\
+  map (csr (run_gen QcF P ([Wake p; Pad p] ++ [CSR 0%Qc p]))) (zrange 12)
+  = map Qcz [27; 10; 7; 0;  27; 18; 63; 0;  0; 0; 0; 0].
+Proof.
+  split; [intros l Hl; exact Hl|]. split.
+  - intros c Hc E. rewrite E in Hc. discriminate Hc.
+  - split; vm_compute; reflexivity.
+Qed.
